@@ -174,6 +174,8 @@ func (e *Engine) verifyFuncMode(c *Contract, mode string) (rep *FuncReport) {
 		short += "@" + mode
 	}
 	s := newSession(e, short)
+	s.topContract = c
+	s.runMode = mode
 	rep = &FuncReport{Key: key, Session: s}
 	defer func() {
 		if r := recover(); r != nil {
@@ -241,6 +243,12 @@ func (e *Engine) verifyFuncMode(c *Contract, mode string) (rep *FuncReport) {
 	env := s.frameEnv(fr)
 	bindResults(env, fn.Signature, results)
 	fr.env = env
+	for _, w := range c.Witness {
+		// Skolem witnesses: the specification functions uf(...result...) are otherwise unconstrained at this call's
+		// (fresh) result, so the proof may choose their values
+		s.assume(Imp(out.Reach, s.evalBoolClause(fr, w, out, nil)))
+		s.note("WITNESS in %s: specification function defined over the result of the call: %s", fn.String(), w.Src)
+	}
 	for i, en := range c.Ensures {
 		if en.Mode != mode {
 			continue // the unmoded run proves the unmoded postconditions, the run for mode M proves the @M ones
@@ -314,6 +322,17 @@ func (s *Session) frameObligations(fr *Frame, c *Contract, out *State, short str
 				if l.whole {
 					ok = true
 				}
+			}
+			if !ok && len(allowed[n]) > 0 && isArr(sortN) {
+				// row-level permissions on a ghost map: every other row is unchanged
+				r := s.fresh("fr", SInt)
+				var conds []T
+				for _, l := range allowed[n] {
+					conds = append(conds, Not(Eq(r, l.ref)))
+				}
+				conj = append(conj, Imp(And(conds...), Eq(Select(cur, r), Select(init, r))))
+				srcs = append(srcs, n)
+				continue
 			}
 			if !ok && !strings.HasPrefix(n, "X:txn:") && !strings.HasSuffix(n, "0") && !strings.HasPrefix(n, "X:ev") {
 				conj = append(conj, Eq(cur, init))
